@@ -37,8 +37,9 @@ ASSUMPTIONS = [
     ">= 2; degree/size sequences have equal totals, sizes in 2..N, >= 2 hyperedges; a fresh "
     "sampler is built for every sample() call (matching_sequences is never reset by the class)",
     "a chain that ends up with fewer than two hyperedges (only possible when a sequence is "
-    "sampled from the model) cannot make a move: the ValueError of Generator.choice raised "
-    "in _mcmc_step with fewer than two hyperedges in its list is counted as discarded",
+    "sampled from the model) cannot make a move: numpy's ValueError for choosing two of fewer "
+    "than two items (Generator.choice(len(chain), size=2, replace=False)) is counted as "
+    "discarded in the modes model / deg_only / dim_only, never in the modes initial / sequences",
     "the random outcomes of the chain are sampled over seeds, not exhausted; the first 3-5 "
     "elements of the generator are inspected",
     "positive integer weight = instance of numbers.Integral (numpy integers included) and > 0",
@@ -205,9 +206,18 @@ def draw_samples(case):
     return sampler, out
 
 
+CHOICE_ERRORS = ("Cannot take a larger sample than population",
+                 "a must be a positive integer unless no samples are taken",
+                 "a cannot be empty unless no samples are taken")
+
+
 def _short_chain(exc):
-    """The ValueError comes from the pair selection of _mcmc_step on a chain with fewer
-    than two hyperedges (read from the frame only to classify the discard)."""
+    """The ValueError is numpy's refusal to pick two of fewer than two hyperedges
+    (Generator.choice(len(chain), size=2, replace=False)).  When the frame of the
+    sampler's step function is on the traceback its list is looked at as well (only to
+    classify the discard): a chain of two or more hyperedges is never discarded."""
+    if not any(m in str(exc) for m in CHOICE_ERRORS):
+        return False
     tb = exc.__traceback__
     frame = None
     while tb is not None:
@@ -215,9 +225,11 @@ def _short_chain(exc):
             frame = tb.tb_frame
         tb = tb.tb_next
     if frame is None:
-        return False
+        return True
     chain = frame.f_locals.get("hye_list")
-    return isinstance(chain, list) and len(chain) < 2 and "hye1" not in frame.f_locals
+    if isinstance(chain, list):
+        return len(chain) < 2 and "hye1" not in frame.f_locals
+    return True
 
 
 def table(h):
@@ -484,21 +496,21 @@ ALL_MODES = ("initial", "initial", "sequences", "model", "model", "deg_only", "d
 
 CLAUSES = [
     Clause("validity", lambda tier: cases(("initial", "sequences", "model", "model")),
-           check_validity, quick=130, thorough=800, shards_quick=3,
+           check_validity, quick=200, thorough=1200, shards_quick=3,
            rule="at least 10 MCMC steps, a sample with >= 2 hyperedges, and (initial mode) a "
                 "sample that differs from the initial configuration"),
     Clause("conditioning_initial", lambda tier: cases(("initial",)),
-           check_conditioning_initial, quick=120, thorough=800, shards_quick=2,
+           check_conditioning_initial, quick=180, thorough=1200, shards_quick=2,
            rule="at least 10 MCMC steps and a sample whose hyperedge set differs from the "
                 "initial hypergraph"),
     Clause("conditioning_sequences", lambda tier: cases(("sequences",)),
-           check_conditioning_sequences, quick=120, thorough=800, shards_quick=2,
+           check_conditioning_sequences, quick=180, thorough=1200, shards_quick=2,
            rule="at least 10 MCMC steps, matching_sequences true and two different samples"),
     Clause("partial_conditioning", lambda tier: cases(("deg_only", "dim_only")),
-           check_partial_conditioning, quick=100, thorough=500, shards_quick=2,
+           check_partial_conditioning, quick=200, thorough=800, shards_quick=2,
            rule="at least 10 MCMC steps and a sample with >= 2 hyperedges"),
     Clause("determinism", lambda tier: cases(ALL_MODES),
-           check_determinism, quick=100, thorough=600, shards_quick=3,
+           check_determinism, quick=150, thorough=900, shards_quick=3,
            rule="at least 10 MCMC steps, a sample with >= 2 hyperedges and two different "
                 "samples in the sequence"),
 ]
